@@ -22,9 +22,19 @@ _MIX = ("Two layers, reported separately in this file: (1) obligations = verific
         "structure only; (2) bounded_standins = exhaustive small-scope run-time contract checking of the real functions under CPython "
         "(coverage.bounded_standins: bound, cases, failures). Nothing bounded is counted as proved. ")
 EXPLANATION = {p: _MIX for p in LEVEL}
+for _p in ("C01", "C11", "C12", "C13"):
+    EXPLANATION[_p] = ("obligations = verification conditions generated from /repo's source by pyvc for symbolic sample lengths and discharged by "
+                       "z3/cvc5 (coverage.obligations / discharged). They model observations as extended reals; the one consequence of that "
+                       "assumption that can be checked natively is covered by a BOUNDED stand-in (coverage.bounded_standins, never counted as "
+                       "proved): integer-typed samples (Python ints, integer arrays) must give the same p-values and histories as the float "
+                       "samples the obligations are about.")
 # bounded stand-ins (native exhaustive small-scope contract checking, /verif/bounded/cases.py): property -> [(case, clause filter)]
 # a filter is a tuple of substrings: only failures whose clause contains one of them count for that property (None = all)
 BOUNDED_CASES = {
+    "C01": [("nonneg_dtype", None)],
+    "C11": [("nonneg_dtype", None)],
+    "C12": [("nonneg_dtype", None)],
+    "C13": [("nonneg_dtype", None)],
     "C02": [("assorters", None)],
     "C03": [("overstatement", ("mean(B)", "does not raise"))],
     "C04": [("raire", ("does not raise", "list of assertions", "empty list exactly", "holds on the CVRs", "every elimination order"))],
